@@ -183,7 +183,8 @@ Theorem C19_script_runs_polls :
     let os := fst (run_polls c t_end (polls cs [] 0) (skipn (8 + 3 * n) s)) in
     [7] ++ flat_map (enc_call os) cs ++
     [Z.of_nat (length (flat_map (fun po => d_bits (o_dec (snd po))) os))] ++
-    flat_map (fun po => d_bits (o_dec (snd po))) os.
+    flat_map (fun po => d_bits (o_dec (snd po))) os ++
+    [Z.of_nat (length cs)] ++ flat_map (fun p => firstn 8 (enc_call os p)) cs.
 Proof. exact script_runs_polls. Qed.
 Print Assumptions C19_script_runs_polls.
 
